@@ -30,7 +30,7 @@ Definition classification : list (string * string * string * site_class) := [
   (* parser: syntax check of a regex literal *)
   ("parser", "nextRegex", "compiler.AddRegexFlags(regex)", ValidationOnly);
   (* name=value command-line assignments: anchored, no alternation, greedy = longest *)
-  ("interp", "(package variable)", "`^([_a-zA-Z][_a-zA-Z0-9]*)=(.*)`", InternalFixed)
+  ("interp", "(package variable)", "`(?s)^([_a-zA-Z][_a-zA-Z0-9]*)=(.*)`", InternalFixed)
 ].
 
 Definition key_eqb (k : string * string * string) (s : re_site) : bool :=
